@@ -88,7 +88,8 @@ def gen_cases(tier, seed):
     for a in KINDS:
         for b in KINDS:
             for sync in (False, True):
-                add(["good", a, b, "good2"], sync=sync, ack=(len(a) + len(b)) % 2 == 0, close={"how": "fin", "at": None})
+                add(["good", a, b, "good2"], sync=sync, ack=(len(a) + len(b)) % 2 == 0, close={"how": "fin", "at": None},
+                    tmode=["pos", "tiny", "block"][(len(a) * 3 + len(b)) % 3])
     # random scripts
     n = 250 if tier == "quick" else 60000
     for i in range(n):
@@ -100,7 +101,7 @@ def gen_cases(tier, seed):
                 changes.append([rng.randint(0, k), rng.choice(["unsub_a", "pause_a", "sub_all", "unsub_b", "sub_unsub", "resume_a", "unsub_all"])])
         close = rng.choice([None, {"how": "fin", "at": None}, {"how": "rst", "at": None}])
         add(kinds, sync=rng.random() < 0.5, ack=rng.random() < 0.3, tc=(i % 5 == 4), changes=sorted(changes), close=close,
-            drain_peer=rng.random() < 0.5, sub_all=rng.random() < 0.1, tmode=rng.choice(["pos", "pos", "block", "none", "long"]))
+            drain_peer=rng.random() < 0.5, sub_all=rng.random() < 0.1, tmode=rng.choice(["pos", "pos", "block", "none", "long", "tiny", "tiny"]))
     # the peer closing after every byte offset of a frame, for every frame kind
     step = 1 if tier == "thorough" else 4
     for kind in KINDS:
@@ -367,6 +368,8 @@ def run_case(case, tier):
                     tmo = -1
                 elif close and case.get("tmode") == "none":
                     tmo = None
+                elif case.get("tmode") == "tiny":
+                    tmo = 1e-6      # budget already spent when a queued frame is examined; data is queued, so select still fires
                 elif case.get("tmode") == "long":
                     tmo = 0.5 if call < len(frames) else 0.05
                 m = c.read_message(timeout=tmo, ack=flags["ack"], sync_check=flags["sync"])
